@@ -169,7 +169,8 @@ pub fn case_from_json(v: &Value) -> Case {
 
 pub fn shrink_case(case: Case, mut fails: impl FnMut(&Case) -> bool) -> Case {
     let mut cur = case;
-    let mut budget: i32 = 700;
+    // fewer attempts for very long inputs (every attempt lexes the whole candidate twice)
+    let mut budget: i32 = if cur.input.len() > 20_000 { 150 } else { 700 };
     let mut try_ = |c: Case, cur: &mut Case, budget: &mut i32| -> bool {
         if *budget <= 0 {
             return false;
@@ -771,7 +772,7 @@ pub fn shrink_spec(prop: &dyn Prop, pname: &'static str, spec: Spec, case: Case,
                             }
                         }
                         if let Some(f) = failing {
-                            let small = shrink_case(f, |c| matches!(eval(&mut server, &mut comp, c).0, Verdict::Bad(_)));
+                            let small = shrink_case(f, |c| comp.affordable(c) && matches!(eval(&mut server, &mut comp, c).0, Verdict::Bad(_)));
                             if let (Verdict::Bad(reason), models, outs) = eval(&mut server, &mut comp, &small) {
                                 let rp = replay_json(prop.id(), &ctx, &small, &reason, &models[0].trace, &outs[0]);
                                 found.lock().unwrap().push((spec_size(spec), spec.clone(), small, reason, rp));
@@ -989,7 +990,7 @@ pub fn run_collect(prop: &dyn Prop, tier: Tier) -> (Evidence, i32) {
                                 Verdict::Bad(reason) => {
                                     // shrink input/script against the same lexer
                                     let shrunk = shrink_case(base.clone(), |c| {
-                                        matches!(eval_group(&mut server, &mut comp, c).3, Verdict::Bad(_))
+                                        comp.affordable(c) && matches!(eval_group(&mut server, &mut comp, c).3, Verdict::Bad(_))
                                     });
                                     let (vars2, models2, outs2, v2) = eval_group(&mut server, &mut comp, &shrunk);
                                     let reason2 = match v2 {
